@@ -24,7 +24,8 @@ template <typename IntegralN, typename IntegralK>
 static constexpr auto round_up(const IntegralN& n,
                                const IntegralK& k) -> decltype(n + k)
 {
-    return ((n + k - 1) / k) * k;
+    // see div_ceil(): (n + k - 1) overflows for large n although the result fits
+    return (n / k + (n % k > 0 ? 1 : 0)) * k;
 }
 
 //! \}
